@@ -592,3 +592,36 @@ def r10f(model: Model, rr: RuleResult):
             rr.bad(wfi, it, f"config.write iterates {short(it)} for '{key}' while config.load keeps the order of the file: the worker sees "
                    f"FontConfig.{field} in a different order than the driver resolved (e.g. wght declared before wdth comes back as wdth, wght)",
                    construct=f"write '{key}': for ... in {short(it)}")
+
+
+@RULES.rule("C10", "R10g", "response files are split by the inverse of the quoting ninja applied (POSIX shlex on POSIX hosts)", floor=2)
+def r10g(model: Model, rr: RuleResult):
+    """ninja quotes `$in` for the host shell; util.shell_quote uses shlex.quote off Windows, so the reader has to run shlex.split in POSIX mode there.
+    In non-POSIX mode shlex keeps the quotes as part of the token: a source called `a b.svg` reaches the worker as `'a b.svg'`."""
+    mod = model.mod("util")
+    calls = [c for n in ast.walk(mod.tree) if isinstance(n, ast.FunctionDef) and n.name == "shell_split" for c in ast.walk(n)
+             if isinstance(c, ast.Call) and norm(c.func) == "shlex.split"]
+    if not calls:
+        raise AnalysisError("util.shell_split: shlex.split call not found")
+    for c in calls:
+        px = kwarg(c, "posix")
+        t = norm(px).replace(" ", "") if px is not None else None
+        if px is None or t in ("True", "os.name=='posix'", "'posix'==os.name", "notsys.platform.startswith('win')", "os.name!='nt'"):
+            rr.ok(f"shlex.split(..., posix={t if t else 'True (default)'}) on the non-Windows branch")
+        elif "sys.platform" in t and "'posix'" in t:
+            rr.bad(mod, c, f"posix={short(px)}: sys.platform is 'linux', 'darwin', 'win32', ... and never 'posix', so shlex.split always runs in non-POSIX mode and keeps the quotes "
+                   f"ninja put around a path: a source whose name needs quoting reaches the worker under a different name than the driver resolved", construct="shell_split: posix= is constantly False")
+        elif t == "False":
+            rr.bad(mod, c, "shlex.split(..., posix=False) keeps the quotes of quoted paths", construct="shell_split: posix=False")
+        else:
+            raise AnalysisError(f"util.shell_split: posix={short(px)} outside the enumerated idioms")
+    q = [c for n in ast.walk(mod.tree) if isinstance(n, ast.FunctionDef) and n.name == "shell_quote" for c in ast.walk(n) if isinstance(c, ast.Call) and norm(c.func) == "shlex.quote"]
+    if q:
+        rr.ok("shell_quote uses shlex.quote off Windows (the writer's side of the same dialect)")
+    else:
+        rr.bad(mod, mod.tree, "shell_quote no longer uses shlex.quote off Windows", construct="shell_quote")
+    ex = model.func("util", "expand_ninja_response_files")
+    if any(callee_tail(c) == "shell_split" for c in calls_in(ex, nested=True)):
+        rr.ok("expand_ninja_response_files splits response-file content with shell_split")
+    else:
+        rr.bad(ex, ex.node, "response files are no longer split with shell_split", construct="expand_ninja_response_files")
